@@ -137,7 +137,13 @@ func GenSchema(t *rapid.T, p Profile) *hx.Schema {
 		for j := 0; j < n; j++ {
 			// interface fields use names from the tail of the pool so that they rarely clash
 			fname := fieldNames[len(fieldNames)-1-j] + in[1:]
-			td.Fields = append(td.Fields, &hx.Field{Name: fname, Type: genFieldType(in + fname)})
+			ft := genFieldType(in + fname)
+			if j == 0 && rapid.Bool().Draw(t, in+fname+"abstractTyped") {
+				// a field of an abstract type: the position where implementers may differ (one
+				// narrows it to a concrete type, another keeps it abstract)
+				ft = pickWrapped(t, rapid.SampledFrom(append(append([]string{}, ifaceNames...), unionNames...)).Draw(t, in+fname+"abs"), in+fname+"absw")
+			}
+			td.Fields = append(td.Fields, &hx.Field{Name: fname, Type: ft})
 		}
 		ifaceDefs[in] = td
 		s.Types = append(s.Types, td)
